@@ -322,7 +322,7 @@ Proof.
   destruct (try_index (symbols c) (current_scope_nx c) id) as [nx|] eqn:Ei.
   - destruct (try_get (symbols c) nx) as [ex|] eqn:Eg.
     + destruct (redefinition ex sym) eqn:Er.
-      * destruct (s_span sym); [apply good_refl|exact I].
+      * apply good_refl.
       * destruct (negb (sdata_eqb (s_data ex) (s_data sym))) eqn:Ech.
         -- (* changed value *)
            destruct (symtype_eqb (s_ty sym) TyVariable); [apply loud_var|apply loud_flag]; apply node_count_update.
